@@ -10,6 +10,7 @@ import VlsModel.Gen.FnOnchainPass
 import VlsModel.Gen.FnPolicyMod
 import VlsModel.Gen.FnOnchainFactory
 import VlsModel.Gen.FnDefaultPolicy
+import VlsModel.Gen.FnSimpleMisc
 import VlsModel.Gen.Chain
 import VlsModel.Lemmas.FnGen
 /-
@@ -1503,6 +1504,38 @@ theorem C05_fn_make_default_simple_policy {V : Type} (unl fee : V) (net : Gen.Fn
       ∧ sp.enforce_balance = raw.enforceBalance ∧ sp.filter.rules = [] ∧ raw.filter = [] ∧ sp.dev_flags = none
       ∧ sp.max_channels = Gen.Chain.maxChannelsDefault := by
   cases net <;> exact ⟨rfl, rfl, rfl, rfl, rfl, rfl, rfl, rfl, rfl, rfl, rfl, rfl, rfl, rfl, rfl⟩
+
+/-! ### the remaining small functions of `simple_validator.rs` (`Gen.FnSimpleMisc`) -/
+
+/-- the four `Policy` getters of `SimplePolicy` return their own field (not another one, not a constant) -/
+theorem C05_fn_simple_policy_getters {V : Type} (sp : Gen.FnSimpleMisc.SimplePolicy V) :
+    sp.global_velocity_control_fn = sp.global_velocity_control ∧ sp.max_channels_fn = sp.max_channels
+      ∧ sp.max_invoices_fn = sp.max_invoices ∧ sp.fee_velocity_control_fn = sp.fee_velocity_control :=
+  ⟨rfl, rfl, rfl, rfl⟩
+
+/-- no developer flag is on by default -/
+theorem C05_fn_dev_flags_default :
+    Gen.FnSimpleMisc.PolicyDevFlags.default.disable_beneficial_balance_checks = false := rfl
+
+/-- `SimpleValidator::is_ready`: funded and not closed … -/
+theorem C05_fn_simple_is_ready (v : Gen.FnSimpleMisc.SimpleValidator) (fd cd : Nat) :
+    v.is_ready { funding_depth := fd, closing_depth := cd } = (decide (0 < fd) && cd == 0) := by
+  simp [Gen.FnSimpleMisc.SimpleValidator.is_ready]
+
+/-- … which, at the generated minimum depth, is the on-chain validator's `is_ready`: both validators agree on when a
+    channel is ready -/
+theorem C05_fn_is_ready_agree (v : Gen.FnSimpleMisc.SimpleValidator) (c : ChainState) :
+    v.is_ready { funding_depth := c.fundingDepth, closing_depth := c.closingDepth } = toOV.is_ready (toOCh c) := by
+  rw [C05_fn_simple_is_ready, C05_fn_onchain_is_ready]
+  have h : Gen.Policy.minFundingDepth = 1 := rfl
+  rw [h]
+  by_cases h0 : 0 < c.fundingDepth <;> simp [h0] <;> omega
+
+/-- `make_simple_policy`: the configured options resolved against the default of the **same** network -/
+theorem C05_fn_make_simple_policy {O V : Type} (dflt : Gen.FnSimpleMisc.Network → Gen.FnSimpleMisc.SimplePolicy V)
+    (resolve : O → Gen.FnSimpleMisc.SimplePolicy V → Gen.FnSimpleMisc.SimplePolicy V)
+    (net : Gen.FnSimpleMisc.Network) (cfg : O) :
+    Gen.FnSimpleMisc.make_simple_policy dflt resolve net cfg = resolve cfg (dflt net) := rfl
 
 /-- trait default `Policy::max_channels` = the constant `x_chain.py` extracts -/
 theorem C05_fn_policy_max_channels {S : Type} (s : S) :
